@@ -154,6 +154,51 @@ def printer_replay(ctx, name, n, style):
     return ctx.mismatch(name, f'abstract panic path ({n} arguments, style {style}) but printing the JSON policy gives {str(a)[:200]}')
 
 
+# ---------------------------------------------------------------------------------------------------------------- extension constructors on adversarial strings (native only)
+# The string parsers of the extension constructors sit behind the `regex` crate, which engine M cannot encode; the unwraps after a regex match rely on what the regex
+# let through (ASCII digits of a bounded length).  This battery is sampling, not a solver verdict: every constructor on strings derived from valid ones by replacing
+# digits with non-ASCII decimal digits, stretching numbers, moving signs / separators - none may panic.
+
+ALT_DIGITS = ['\u0667', '\uff17', '\u096d', '\u00b2', '\U0001d7d5']        # ARABIC-INDIC 7, FULLWIDTH 7, DEVANAGARI 7, SUPERSCRIPT 2, MATHEMATICAL BOLD 7
+EXT_BASE = {'datetime': ['2024-01-01', '2024-01-01T01:02:03Z', '2024-01-01T01:02:03.456Z', '2024-01-01T01:02:03+0130', '2024-01-01T01:02:03.456-2359', '0000-01-01', '9999-12-31T23:59:59.999+2359'],
+            'duration': ['1d2h3m4s5ms', '-1d', '0ms', '9223372036854775807ms', '106751991167d', '1h1h', '2562047788015h', '153722867280912m'],
+            'decimal': ['1.5', '-1.5', '0.0001', '922337203685477.5807', '-922337203685477.5808', '1.00000', '00001.1'],
+            'ip': ['1.2.3.4', '1.2.3.4/24', '::1', '::1/128', 'ffff::/0', '255.255.255.255/32', '1.2.3.4/032', '::ffff:1.2.3.4']}
+
+
+def ext_strings(fn):
+    out = []
+    for b in EXT_BASE[fn]:
+        out.append(b)
+        for i, ch in enumerate(b):
+            if ch.isdigit():
+                out += [b[:i] + d + b[i + 1:] for d in ALT_DIGITS[:2]]
+                if i in (0, len(b) - 1) or not b[i - 1].isdigit():
+                    out += [b[:i] + d + b[i + 1:] for d in ALT_DIGITS[2:]]
+        out += [b + b, b[:-1], b[1:], ' ' + b, b + ' ', '+' + b, '-' + b, b.replace('1', '1' * 25, 1), b.replace('.', '..'), b.replace(':', '::'), b.replace('-', '--'), b.upper(), b + '\u0000', b.replace('2', '\u0662')]
+    out += ['', '-', '.', ':', 'T', 'Z', '/', 'd', 'ms', '\u0667', '\U0001d7d5' * 4 + '-01-01', '99999999999999999999999999d', '1' * 400]
+    seen, uniq = set(), []
+    for x in out:
+        if x not in seen:
+            seen.add(x)
+            uniq.append(x)
+    return uniq
+
+
+def ext_parse_battery(ctx, name='native battery: extension constructors on adversarial strings'):
+    n = 0
+    for fn in EXT_BASE:
+        for arg in ext_strings(fn):
+            a = ctx.native.ask({'op': 'ext_parse', 'fn': fn, 'arg': arg})
+            n += 1
+            if 'panic' in a:
+                return ctx.violation(name, f'extensions/{ {"ip": "ipaddr"}.get(fn, fn) }.rs: constructor `{fn}` on a string (native battery)', f'`{fn}({arg!r})` panics: {a["panic"][:200]}', {'op': 'ext_parse', 'fn': fn, 'arg': arg})
+            if 'ok' not in a and 'err' not in a:
+                return ctx.mismatch(name, f'ext_parse probe {fn}({arg!r}): {str(a)[:200]}')
+    ctx.extra['ext_parse_battery'] = n
+    return ('unreplayed', f'{n} constructor applications, none panics')
+
+
 def families(ctx):
     L = 3 if ctx.tier == 'thorough' else 2
     fam = [(f'levenshtein {a} x {b}', lambda a=a, b=b: levenshtein(ctx, a, b)) for a, b in itertools.product(range(L + 1), repeat=2)]
